@@ -36,7 +36,8 @@ type fields struct {
 }
 
 func (f fields) line(level int) string {
-	s := fmt.Sprintf("n=%d m=%d D=%s ec=%s di=%d ra=%d cc=%s cv=%s", f.n, f.m, f.dist, f.ec, f.di, f.ra, f.cc, f.cv)
+	// gm = Girth at every level (the model of Girth is proved exact: Props/C10_cycles.v)
+	s := fmt.Sprintf("n=%d m=%d D=%s ec=%s di=%d ra=%d cc=%s cv=%s gm=%d", f.n, f.m, f.dist, f.ec, f.di, f.ra, f.cc, f.cv, f.gi)
 	if level >= 1 {
 		s += fmt.Sprintf(" gi=%d bl=%s ar=%s cy=%s ic=%s ip=%s icb=%s ipb=%s", f.gi, f.bl, f.ar, f.cy, f.ic, f.ip, f.icb, f.ipb)
 	}
